@@ -55,23 +55,24 @@ def leftG (g : Fields) : Rat :=
   let sp := (g.spent).getD 0
   if est - sp < 0 then 0 else est - sp
 
-/-- `fwdEnd` for a leaf that sees an empty ledger: the new fields and the (day, units) pairs reserved -/
-def aloneEnd (cal : Cal) (clk : Time) (g : Fields) : Res (Fields × List (Int × Rat)) :=
+/-- `fwdEnd` for a leaf that sees an empty ledger: the new fields and the (day, units) pairs reserved; `pstart` is the
+    project start (the clock clamps the end only once it is later than that) -/
+def aloneEnd (cal : Cal) (pstart clk : Time) (g : Fields) : Res (Fields × List (Int × Rat)) :=
   match g.end_ with
   | some _ => pure (g, [])
   | none => do
     let st := (g.start).getD epoch
     let (e, rows) ← shiftFwd cal (fun _ => 0) (maxT st clk) (leftG g)
-    pure ({ g with end_ := some (maxT (maxT e clk) st) }, rows)
+    pure ({ g with end_ := some (maxT (if pstart < clk then maxT e clk else e) st) }, rows)
 
 /-- what `fwdPlace` computes for a leaf with fields `g0` that has no rows yet, with balancing off, the clock
-    constantly `clk` and the bound `bound` handed down -/
-def alone (cal : Cal) (bound clk : Time) (dflt : Rat) (ms : Bool) (minStart : Option Time) (g0 : Fields) :
+    constantly `clk`, the bound `bound` handed down and the project start `pstart` -/
+def alone (cal : Cal) (bound pstart clk : Time) (dflt : Rat) (ms : Bool) (minStart : Option Time) (g0 : Fields) :
     Res (Fields × List (Int × Rat)) :=
   if ms then pure ({ start := some bound, end_ := some bound, est := some 0, spent := some 0 }, [])
   else do
     let g1 ← aloneStart cal bound clk minStart g0
-    aloneEnd cal clk (aloneEst dflt g1)
+    aloneEnd cal pstart clk (aloneEst dflt g1)
 
 theorem fwdStart_alone (env : Env) (cal : Cal) (t : Uid) (v clk : Time) (σ σ' : SS)
     (hl : (env.info t).children.isEmpty = true) (hclk : ∀ k, env.clock k = clk)
@@ -129,7 +130,7 @@ theorem map_dayUnits_mk (key : Option Nat) (t : Uid) (new : List (Int × Rat)) :
 theorem fwdEnd_alone (env : Env) (cal : Cal) (t : Uid) (clk : Time) (σ σ' : SS)
     (hl : (env.info t).children.isEmpty = true) (hclk : ∀ k, env.clock k = clk)
     (h : fwdEnd env cal (fun _ => 0) t σ = .ok σ') :
-    ∃ new, aloneEnd cal clk (σ.f t) = .ok (σ'.f t, new) ∧
+    ∃ new, aloneEnd cal env.bound clk (σ.f t) = .ok (σ'.f t, new) ∧
       σ'.rows = σ.rows ++ new.map (mkRow (env.info t).resource t) := by
   unfold fwdEnd at h
   unfold aloneEnd
@@ -157,7 +158,7 @@ theorem fwdEnd_alone (env : Env) (cal : Cal) (t : Uid) (clk : Time) (σ σ' : SS
 theorem fwdPlace_alone (env : Env) (σ σ' : SS) (t : Uid) (v clk : Time)
     (hl : (env.info t).children.isEmpty = true) (hclk : ∀ k, env.clock k = clk) (hb : env.balance = false)
     (hnr : ∀ r ∈ σ.rows, r.task ≠ t) (h : fwdPlace env σ t v = .ok σ') :
-    ∃ new, alone (calOf σ.res (env.info t).resource) v clk env.defaultEst (env.info t).milestone
+    ∃ new, alone (calOf σ.res (env.info t).resource) v env.bound clk env.defaultEst (env.info t).milestone
         (env.info t).minStart (σ.f t) = .ok (σ'.f t, new) ∧
       σ'.rows = σ.rows ++ new.map (mkRow (env.info t).resource t) := by
   have hu : usedBy env σ.rows (env.info t).resource t = fun _ => 0 := by
@@ -231,7 +232,7 @@ structure RemI (env : Env) (f0 : Uid → Fields) (res0 : List (Option Nat × Cal
   base : C08.Base env f0 σ
   cal : ∀ k, calOf σ.res k = calOf res0 k
   got : y ∈ σ.done →
-    alone (calOf res0 (env.info y).resource) env.bound clk env.defaultEst (env.info y).milestone
+    alone (calOf res0 (env.info y).resource) env.bound env.bound clk env.defaultEst (env.info y).milestone
       (env.info y).minStart (f0 y) = .ok (σ.f y, dayUnits σ.rows y)
 
 theorem dayUnits_frozen {σ σ' : SS} (he : Ext σ σ') {y : Uid} (hy : y ∈ σ.done) :
@@ -276,7 +277,7 @@ theorem alone_run (env : Env) (f0 : Uid → Fields) (res0 : List (Option Nat × 
     (hf : env.flagsOK) (hl : env.linksSym) (hch : env.childrenOK) (hb : env.balance = false)
     (hclk : ∀ k, env.clock k = clk) (hy : y ∈ memberList env) (hfree : freeLeaf env y = true)
     (h : forwardCalc env f0 res0 = .ok o) :
-    alone (calOf res0 (env.info y).resource) env.bound clk env.defaultEst (env.info y).milestone
+    alone (calOf res0 (env.info y).resource) env.bound env.bound clk env.defaultEst (env.info y).milestone
       (env.info y).minStart (f0 y) = .ok (o.f y, dayUnits o.rows y) := by
   obtain ⟨mem, σ, hm, hp, hout⟩ := fwdRun_ok env f0 res0 o (forwardCalc_run env f0 res0 o h)
   have hml := memberList_eq env mem hm
